@@ -15,4 +15,8 @@ Why(o) == LET want == EP(o.c, o.left, o.right) \o EUR(o.c, o.left, o.right) \o E
           ELSE "order"
 Conforms == LET o == Obs[l] IN
    (o.exit = 0 /\ Allowed(o.c, o.left, o.right, o.out)) \/ PrintT(ToJson([line |-> l, why |-> Why(o)]))
+\* measured, not judged: does an unsorted-mode output equal the reference output Streamed (right stream processed in
+\* order, then the unpaired left records in left-file order)?  The reference does not promise it.
+InReferenceOrder == LET o == Obs[l] IN
+   (o.exit # 0 \/ o.c.mode = "-s" \/ o.out = Streamed(o.c, o.left, o.right)) \/ PrintT(ToJson([line |-> l]))
 =============================================================================
